@@ -9,6 +9,11 @@
   An ERROR of the root that never reaches the environment (the former finding
   notify_dropped, fixed) is no variant of the model any more: it is a disagreement with
   spec = 0, i.e. a plain VIOLATION.
+  Kinds R… with instants drop / dropabrupt: the victim(s) died while the core was cut off
+  from the master and the terminal state arrived only as the reconciliation answer after the
+  re-subscription; the environment is idle, so the model's input is `fail k` on the deployed
+  system (the drop itself and the answers about the surviving tasks — TASK_RUNNING of a task
+  that is ACTIVE already — change nothing in the model).
 -/
 import ControlModel.Model.Failure
 
@@ -41,7 +46,9 @@ def parseScen (x : SExp) : Option Scen :=
     let victim ← v.nat?
     let kind ← Kind.parse? k
     if victim ≥ tasks.length ∨ tasks.isEmpty then none
-    if !(["idle", "race", "racelate", "raceself", "burst"].contains inst) then none
+    if !(["idle", "race", "racelate", "raceself", "burst", "drop", "dropabrupt"].contains inst) then none
+    -- learnt through reconciliation ⇔ the core was cut off
+    if kind.viaReconciliation != (inst == "drop" || inst == "dropabrupt") then none
     pure { live := l, tasks := tasks, victim := victim, kind := kind, instant := inst }
   | _ => none
 
@@ -74,7 +81,7 @@ def indices (sc : Scen) : List Nat := List.range sc.tasks.length
 /-- Tasks that die: the victim, or everything on its executor / agent (one executor per host). -/
 def victims (sc : Scen) : List Nat :=
   match sc.kind with
-  | .EXEC | .EXEC0 | .AGENT | .AGENT0 => (indices sc).filter (fun i => hostOf sc i = hostOf sc sc.victim)
+  | .EXEC | .EXEC0 | .AGENT | .AGENT0 | .RAGENT => (indices sc).filter (fun i => hostOf sc i = hostOf sc sc.victim)
   | _ => [sc.victim]
 
 /-- The task whose reply is held back (same choice as the harness). -/
@@ -110,7 +117,7 @@ def finalSys (sc : Scen) (finishFirst : Bool := false) (modes : List Nat := []) 
   let setLeaves (s : Sys) (ps : List (List Nat)) (v : TState) (r : Bool) : Sys :=
     ps.foldl (fun acc p => drain cfg (setLeaf cfg acc p v r)) s
   match sc.instant with
-  | "idle" => some (fin (fail sc.kind base vs))
+  | "idle" | "drop" | "dropabrupt" => some (fin (fail sc.kind base vs))
   | "race" | "racelate" => do
     let h ← holder sc
     if (victims sc).contains h then none   -- the reply that is held back would never come
@@ -150,7 +157,7 @@ def finalSys (sc : Scen) (finishFirst : Bool := false) (modes : List Nat := []) 
     some (fin s5)
   | _ => none
 
-def racing (sc : Scen) : Bool := sc.instant != "idle"
+def racing (sc : Scen) : Bool := sc.instant != "idle" && sc.instant != "drop" && sc.instant != "dropabrupt"
 
 def dropToBody : List Step → List Step
   | [] => []
@@ -231,7 +238,7 @@ def hypOf (sc : Scen) (impl : SExp) : String :=
   let env := atom1 impl "env"
   if anyCrit sc then
     if env == "ERROR" then "-"
-    else if sc.kind = .FINISHED then "finished_not_error"
+    else if sc.kind.direct = .FINISHED then "finished_not_error"
     else if sc.kind = .INTERNAL then "internal_error_ignored_unless_running"
     else "-"
   else
